@@ -1,4 +1,6 @@
 """C17 - Sliding windows cover, overlap, partition and splice exactly."""
+import itertools
+
 import numpy as np
 from hypothesis import strategies as st
 
@@ -98,25 +100,32 @@ def run_case(case, ctx):
     if wg is ctx.CRASH:
         return
 
+    cap = nref + 2  # every generator is consumed up to two items beyond the reference count: one that never stops is
+    #                 reported as a wrong window list instead of exhausting the memory
+
     def _iter_with_iw():
         out = []
-        for fl in wg.firstlast:
+        for fl in itertools.islice(wg.firstlast, cap):
             out.append((int(fl[0]), int(fl[1]), wg.iw))
         return out
     got = ctx.call("C17.firstlast", _iter_with_iw)
     if got is ctx.CRASH:
         return
     fl = [(a, b) for a, b, _ in got]
-    ctx.check(fl == ref, "C17.windows", lambda: f"windows {fl[:4]}..{fl[-2:]} != reference {ref[:4]}..{ref[-2:]}")
+    if not ctx.check(fl == ref, "C17.windows", lambda: f"windows {fl[:4]}..{fl[-2:]} != reference {ref[:4]}..{ref[-2:]}"):
+        if not fl:
+            return
     # validity predicates stated independently of the reference
     ok = fl[0][0] == 0 and fl[-1][1] == ns
     for i in range(len(fl) - 1):
         ok = ok and (fl[i][1] - fl[i + 1][0] == ov) and fl[i + 1][0] > fl[i][0] and fl[i][1] - fl[i][0] == nswin
     ok = ok and 0 < fl[-1][1] - fl[-1][0] <= nswin
     ctx.check(ok, "C17.cover_overlap", lambda: f"cover/overlap predicate fails for {fl[:5]}")
-    ctx.check(wg.nwin == len(fl), "C17.nwin", lambda: f"nwin={wg.nwin} but {len(fl)} windows produced")
+    nwin = ctx.call("C17.nwin", lambda: wg.nwin)
+    if nwin is not ctx.CRASH:
+        ctx.check(nwin == len(fl), "C17.nwin", lambda: f"nwin={nwin} but {len(fl)} windows produced")
     ctx.check([g[2] for g in got] == list(range(len(got))), "C17.iw", "iw is not the running window index")
-    sl = ctx.call("C17.slice", lambda: list(wg.slice))
+    sl = ctx.call("C17.slice", lambda: list(itertools.islice(wg.slice, cap)))
     if sl is not ctx.CRASH:
         ctx.check(sl == [slice(a, b) for a, b in ref], "C17.slice", "slices differ from windows")
     ts = ctx.call("C17.tscale", wg.tscale, fs)
@@ -126,15 +135,15 @@ def run_case(case, ctx):
                   "C17.tscale", "tscale is not the centre of each window")
     if ns <= 2000:
         sig = np.arange(ns) * 3 + 1
-        sa = ctx.call("C17.slice_array", lambda: [np.array(a) for a in wg.slice_array(sig)])
+        sa = ctx.call("C17.slice_array", lambda: [np.array(a) for a in itertools.islice(wg.slice_array(sig), cap)])
         if sa is not ctx.CRASH:
             ctx.check(len(sa) == nref and all(np.array_equal(x, sig[a:b]) for x, (a, b) in zip(sa, ref)),
                       "C17.slice_array", "slice_array differs from sig[first:last]")
     # valid sub windows: every sample exactly once
     if ov % 2 == 0:
-        v = ctx.call("C17.valid", lambda: [tuple(int(x) for x in t) for t in wg.firstlast_valid])
+        v = ctx.call("C17.valid", lambda: [tuple(int(x) for x in t) for t in itertools.islice(wg.firstlast_valid, cap)])
         if v is not ctx.CRASH:
-            okv = len(v) == nref and all((a, b) == r for (a, b, _, _), r in zip(v, ref))
+            okv = len(v) == nref and all(len(t) == 4 for t in v) and all((a, b) == r for (a, b, _, _), r in zip(v, ref))
             if okv:
                 pos = 0
                 for (a, b, fv, lv) in v:
@@ -148,8 +157,8 @@ def run_case(case, ctx):
             tot = np.zeros(ns)
             n = 0
             bad = None
-            for first, last, amp in wg.firstlast_splicing:
-                if (int(first), int(last)) != ref[n] or np.shape(amp) != (last - first,):
+            for first, last, amp in itertools.islice(wg.firstlast_splicing, cap):
+                if n >= nref or (int(first), int(last)) != ref[n] or np.shape(amp) != (last - first,):
                     bad = (n, int(first), int(last), np.shape(amp))
                     break
                 tot[first:last] += amp
